@@ -10,7 +10,7 @@ RULE = ('operation histories over 1-4 simulated worker processes (values.MultiPr
         'decimal prefixes 1/11/12/2), counters, summaries, histograms (two bucket layouts per name) and 2-4 gauges drawn from '
         'the 10 multiprocess modes, numeric and NON-numeric process identifiers (hex ids ending in b/d, ids with dots), labelled and unlabelled, children created in some workers only, exact dyadic amounts with '
         'ties/negatives/-0.0 plus a NaN/Inf stream, scripted set-times with ties, mark_process_dead and pid reuse at arbitrary '
-        'points, collect() and merge(permuted file list) at arbitrary points; non-trivial = at least two pids wrote files and '
+        'points (also striking in the MIDDLE of a scrape: after the collector listed the directory, before it read the files), Gauge.set_to_current_time, falsy identities 0 and empty string, collect() and merge(permuted file list) at arbitrary points; non-trivial = at least two pids wrote files and '
         'at least one collection saw a gauge or histogram series; distinct by history')
 TRUSTED = ['float + < == of the platform (IEEE binary64; OCaml floats in the driver, CPython floats in the implementation)',
            'hypotheses of C08_min_is_least / C08_max_is_greatest / C08_min_max_order_independent / C08_histogram_bounds_sorted: '
@@ -31,7 +31,7 @@ TIME_BUDGET = {'quick': int(_os.environ.get('C08_BUDGET', '75')), 'thorough': in
 
 # numeric pids with shared decimal prefixes and non-numeric worker ids (process_identifier may return any string usable in
 # a file name): hex ids ending in b / d, ids containing '.', ids that are suffixes of one another
-PIDS = [1, 11, 12, 2, 21, 7, 'c0ffee0b', 'c0ffee0d', 'c0ffee0', 'w.d', 'db', 'b', '1d', 'bd.']
+PIDS = [1, 11, 12, 2, 21, 7, 0, '', 'c0ffee0b', 'c0ffee0d', 'c0ffee0', 'w.d', 'db', 'b', '1d', 'bd.']
 LVS = ['x', 'y', '', 'x_y', 'é"\\']
 EXACT = [0.0, 1.0, 1.0, 2.0, 0.5, 0.25, 3.0, 7.5, 100.0, 1048576.0, 0.125]
 GVALS = EXACT + [-1.0, -1.0, -0.0, -2.5, -100.0, 5.0, 5.0]
@@ -109,7 +109,9 @@ def gen_case(rng, nworkers=None, nops=None, wild=False, focus=None):
                 pid = rng.choice(PIDS)          # a pid that never ran, or is already dead
                 if pid in alive.values():
                     continue
-            ops.append(['dead', pid])
+            # mark_process_dead either on its own or striking in the middle of a scrape (after the collector listed the
+            # directory, before it read the files)
+            ops.append(['dead', pid] if rng.random() < 0.6 else ['collect_vanish', pid])
             continue
         w = rng.choice(sorted(alive))
         if focus is not None and rng.random() < 0.6:
@@ -136,7 +138,10 @@ def gen_case(rng, nworkers=None, nops=None, wild=False, focus=None):
             if d['mode'] in ('mostrecent', 'livemostrecent') or r2 < 0.6:
                 step = rng.choice([0.0, 0.0, 1.0, 1.0, 0.5, -1.0, -3.0])       # ties and clocks running backwards
                 clock[0] = max(1.0, clock[0] + step)
-                ops.append(['set', w, d['id'], lv, rng.choice(vals), clock[0]])
+                if rng.random() < 0.2:
+                    ops.append(['settime', w, d['id'], lv, clock[0]])           # Gauge.set_to_current_time()
+                else:
+                    ops.append(['set', w, d['id'], lv, rng.choice(vals), clock[0]])
             elif r2 < 0.8:
                 ops.append(['inc', w, d['id'], lv, rng.choice(vals)])
             else:
@@ -171,17 +176,28 @@ def real_case(rng):
                 return real_case(rng)           # no pid reuse with real pids
             pid2w[op[2]] = op[1]
             ops.append(['spawn', op[1], 0])
-        elif op[0] == 'dead':
+        elif op[0] in ('dead', 'collect_vanish'):
             if op[1] in pid2w and pid2w[op[1]] is not None:
                 ops.append(['dead', pid2w[op[1]]])
                 pid2w[op[1]] = None
+            if op[0] == 'collect_vanish':
+                ops.append(['collect'])
         else:
             ops.append(op)
     return {'metrics': case['metrics'], 'ops': ops, 'real': True}
 
 
+def norm_op(op):
+    """Gauge.set_to_current_time() at clock reading t is, by its documentation, set(t) performed at time t"""
+    if op[0] == 'settime':
+        return ['set', op[1], op[2], op[3], op[4], op[4]]
+    return op
+
+
 def resolve(case, obs):
-    """a real-process case with the pids the run produced put in: the shape the oracle and the model side expect"""
+    """the shape the oracle and the model side expect: settime spelled as the set it stands for and, for a real-process
+    case, the pids the run produced put in"""
+    case = dict(case, ops=[norm_op(op) for op in case['ops']])
     if not case.get('real') or isinstance(obs, dict):
         return case
     ops = []
@@ -299,10 +315,11 @@ class Oracle:
         return bs
 
     def apply(self, op):
+        op = norm_op(op)
         kind = op[0]
         if kind in ('spawn', 'restart', 'setpid'):
             self.pid[op[1]] = op[2]
-        elif kind == 'dead':
+        elif kind in ('dead', 'collect_vanish'):
             for (name, _ls), per in self.gauges.items():
                 if self.decl[name]['mode'] in L.LIVE:
                     per.pop(op[1], None)
@@ -454,7 +471,7 @@ def direct(case, obs):
             r = check_fams(orc.expected(), o['fams'])
             if r:
                 return 'at op %d (%s): %s' % (i, op[0], r)
-        if op[0] == 'dead':
+        if op[0] in ('dead', 'collect_vanish') and 'before' in o:
             gone = set(o['before']) - set(o['after'])
             want = {'gauge_%s_%s.db' % (m, op[1]) for m in L.LIVE} & set(o['before'])
             if gone != want or set(o['after']) - set(o['before']):
@@ -498,8 +515,11 @@ def classify(case, obs):
                 elif entries:
                     modes.add(t)
     ks += ['seen:' + m for m in sorted(modes)]
-    if any(op[0] == 'dead' for op in case['ops']):
+    if any(op[0] in ('dead', 'collect_vanish') for op in case['ops']):
         ks.append('has_dead')
+    for op, o in zip(case['ops'], obs):
+        if op[0] == 'collect_vanish' and set(o.get('before', ())) - set(o.get('after', ())):
+            ks.append('file_vanished_mid_scrape:' + str(o.get('fired')))
     spawned = [op[2] for op in case['ops'] if op[0] == 'spawn']
     if len(spawned) != len(set(spawned)):
         ks.append('pid_reuse')
@@ -514,7 +534,7 @@ def _valid(case):
     for op in case['ops']:
         if op[0] == 'spawn':
             alive.add(op[1])
-        elif op[0] in ('dead', 'collect', 'merge'):
+        elif op[0] in ('dead', 'collect', 'merge', 'collect_vanish'):
             continue
         else:
             if op[1] not in alive:
